@@ -182,6 +182,7 @@ func (s *vfSinks) listenTCP(addr string) error {
 			s.tcpConns[addr] = append(s.tcpConns[addr], c)
 			s.mu.Unlock()
 			go func() {
+				defer c.Close() // (the descriptor goes back when the peer has closed its side)
 				var buf []byte
 				b := make([]byte, 65536)
 				for {
